@@ -1,6 +1,6 @@
 #!/bin/bash
 # usage: mut.sh <file under src> <python-regex-old> <new> [runverus args...]  -- dev helper: verify a mutated scratch copy
-rm -rf /tmp/mrepo && mkdir -p /tmp/mrepo && cp -r /repo/src /tmp/mrepo/src
+rm -rf /tmp/mrepo && mkdir -p /tmp/mrepo && cp -r ${COSET_BASE:-/repo}/src /tmp/mrepo/src
 python3 - "$1" "$2" "$3" <<'PY'
 import sys,re
 f,old,new=sys.argv[1:4]
